@@ -29,10 +29,17 @@ PLANS = {
         dict(name="g0-all-D3", scenario="g0", D=3, ops="all", obs=1, wide=0, lazy=2000),
         dict(name="nodes-D3", scenario="nodes", D=3, ops="node", obs=1, wide=0, lazy=2000),
     ],
+    "nest": [    # not a tier of the CLI: the nesting scenario alone (plus the g0 plan the self-tests need)
+        dict(name="g0-graph-D2", scenario="g0", D=2, ops="graph", obs=1, wide=0, lazy=500),
+        dict(name="nest-D3", scenario="nest", D=3, ops="nest", obs=1, wide=0, lazy=1500),
+    ],
     "quick": [
         dict(name="g1-graph-D3", scenario="g1", D=3, ops="graph", obs=1, wide=0, lazy=1500),
         dict(name="nodes-D3", scenario="nodes", D=3, ops="node", obs=1, wide=0, lazy=1500),
         dict(name="g0-graph-D4", scenario="g0", D=4, ops="graph", obs=0, wide=0, lazy=1500),
+        # nesting: a graph with a binding, its graph node, (renamed,) wrapped in an outer graph, whose own and
+        # INHERITED bindings are bound / unbound (with_inputs -> wrap -> unbind is depth 3)
+        dict(name="nest-D3", scenario="nest", D=3, ops="nest", obs=1, wide=0, lazy=1500),
         dict(name="all-sim-D6", scenario="all", D=6, ops="all", obs=1, wide=0, simulate=12, lazy=1500),
     ],
     # exhaustive to depth 4 per scenario (depth 5 is 1.3M histories for g0 alone), every operation on the
@@ -43,6 +50,8 @@ PLANS = {
         dict(name="g0-all-D4", scenario="g0", D=4, ops="all", obs=1, wide=0, lazy=10000),
         dict(name="all-D3-wide", scenario="all", D=3, ops="all", obs=1, wide=1, lazy=10000),
         dict(name="g1-graph-D4", scenario="g1", D=4, ops="graph", obs=1, wide=0, lazy=10000),
+        dict(name="nest-D4", scenario="nest", D=4, ops="nest", obs=1, wide=0, lazy=10000),
+        dict(name="nest-all-D3-wide", scenario="nest", D=3, ops="all", obs=1, wide=1, lazy=10000),
         dict(name="g0-sim-D6", scenario="g0", D=6, ops="all", obs=1, wide=1, simulate=40, lazy=5000),
         dict(name="g1-sim-D6", scenario="g1", D=6, ops="all", obs=1, wide=1, simulate=40, lazy=5000),
         dict(name="all-sim-D6", scenario="all", D=6, ops="all", obs=1, wide=1, simulate=30, lazy=5000),
@@ -312,6 +321,44 @@ def selftests(ctx, base, lines):
     ctx.bump("binding_selftests", n)
 
 
+def selftests_nest(ctx, base, lines):
+    """Nesting: an unbind on the OUTER graph that releases an inherited binding in place on the nested graph
+    must be flagged (the nested graph and its graph node are live objects of the heap and are re-observed),
+    in the eager and in the lazy replay; the real operations are silent on the same history."""
+    root, _ = R.build_trie(lines)
+    node, hist, objs = root, [], []
+    for k in ("with_inputs:2:x,u", "wrap:3:O", "unbind:4:u"):
+        node = node["_k"][k]
+        hist.append(node["op"])
+        objs.append(node["obj"])
+    if not (objs[1]["kind"] == "outer" and "u" in objs[1]["ibound"] and not objs[1]["bound"] and objs[2]["ibound"] == objs[1]["ibound"]):
+        raise RuntimeError(f"self-test: the nesting history does not unbind an inherited binding: {objs}")
+
+    def unbind_inner(cat, op, recv, k):
+        new = R.api_apply(cat, op, recv, k)
+        if op["op"] == "unbind":
+            for n in recv.nodes.values():
+                inner = n.graph                             # scratch objects of the self-test only
+                for name in n.map_inputs_to_params({op["arg"][0]: None}):
+                    if inner._bound.pop(name, None) is not None:
+                        inner.__dict__.pop("inputs", None)
+        return new
+
+    n = 0
+    for lazy in (False, True):
+        rp = R.Replayer("nest", base)
+        rp.linear(hist, objs, lazy=lazy)
+        if rp.findings:
+            ctx.bump("selftest_clean_replay_not_silent")
+        rp = R.Replayer("nest", base, apply=unbind_inner)
+        rp.linear(hist, objs, lazy=lazy)
+        if "sibling-influenced:unbind" not in {f.klass for f in rp.findings}:
+            raise RuntimeError(f"self-test: in-place release of an inherited binding on the nested graph not flagged "
+                               f"(lazy={lazy}): {sorted({f.klass for f in rp.findings})}")
+        n += 1
+    ctx.bump("binding_selftests", n)
+
+
 # ---------------------------------------------------------------------------------------------
 def run(tier, seed):
     ctx = Ctx(PID, tier, seed, "model_checking")
@@ -321,7 +368,7 @@ def run(tier, seed):
     # replay of a finished plan overlaps with the exploration of the next ones)
     per = max(2, NPROC // min(len(plans), 4))
     findings, bases, details = [], {}, []
-    did_selftest = False
+    did_selftest = did_nest_selftest = False
     sample = None
     with mp.get_context("fork").Pool(min(len(plans), 4)) as tlc_pool:
         futs = [tlc_pool.apply_async(_explore_slim, (p, seed, per)) for p in plans]
@@ -332,6 +379,9 @@ def run(tier, seed):
             if plan["scenario"] == "g0" and not did_selftest:
                 selftests(ctx, base, lines)
                 did_selftest = True
+            if plan["scenario"] == "nest" and plan["ops"] == "nest" and not did_nest_selftest:
+                selftests_nest(ctx, base, lines)
+                did_nest_selftest = True
             t1 = time.time()
             n, lazy_n, stats = replay_plan(ctx, plan, base, lines, rng, findings)
             bases[plan["name"]] = base
@@ -358,7 +408,8 @@ def run(tier, seed):
     _JOB.clear()
     report(ctx, findings, bases)
     ctx.assumptions += [
-        "node bodies are harness-generated pure string functions; the catalogue (G0: 3-node DAG with a default, G1: 2-node cycle with a route gate and a tail, F: 2-input function node, extras Z, W) is the same in GraphAlgebra.tla and c07_replay.py",
+        "node bodies are harness-generated pure string functions; the catalogue (G0: 3-node DAG with a default, G1: 2-node cycle with a route gate and a tail, F: 2-input function node, extras Z, W; GB = G0 with x bound before the history starts) is the same in GraphAlgebra.tla and c07_replay.py",
+        "nesting: wrap = Graph([graph_node], name='O') only for graph nodes none of whose inputs is one of its own outputs; an outer graph admits bind / unbind (own or only-inherited names) / select / as_node / observe / run; bindings of the wrapped graph are inherited under the names the graph node exposes, own bindings take precedence",
         "TLC checked on the model: AppendOnly (action property), Independent (object = function of its derivation chain), OneNew, WellFormed",
         "a container handed out by an object that writes through to THAT SAME object (InputSpec.bound / .entrypoints, GraphNode.map_config[0], FunctionNode.defaults) involves no derivation operation: recorded as divergence, never a verdict; writing through to ANOTHER object is a violation",
         "model comparison on sets for inputs (order differences are divergences)",
